@@ -2,6 +2,7 @@
 from __future__ import annotations
 
 import json
+import re
 import time
 
 from vlib import core
@@ -68,7 +69,13 @@ def run(tier: str, seed: int) -> int:
         cov['models']['Instances_bug.cfg'] = {'violated': 'TemplateFrozen (as required)'}
         recs = []
         # 2. every transition of the bounded machine on a real map; collapse_all on every inclusion graph
-        edges, r = core.dump_edges('Instances', 'Instances_edges.cfg')
+        r = run_tlc('Instances', 'Instances_edges.cfg', workers=1)
+        core.require_mc(r, 'Instances_edges.cfg')
+        edges = [p for p in r.prints if isinstance(p, dict) and p.get('tag') == 'EDGE']
+        m = re.search(r'Finished computing initial states: (\d+) states? generated', r.raw)
+        n_init = int(m.group(1)) if m else 1
+        if len(edges) != r.generated - n_init or not edges:
+            raise core.MachineryError(f'Instances_edges.cfg: {len(edges)} edges printed for {r.generated} generated states ({n_init} initial)')
         actions: dict = {}
         for e in edges:
             actions[e['a']['op']] = actions.get(e['a']['op'], 0) + 1
